@@ -266,3 +266,35 @@ func checkSparseMatrixIndices(rowIndices, colIndices []int, rows, cols int) erro
   }
   return nil
 }
+
+/* -------------------------------------------------------------------------- */
+
+// Check that pi is a permutation of 0, ..., n-1.
+func checkPermutation(pi []int, n int) error {
+  if len(pi) != n {
+    return fmt.Errorf("permutation vector has invalid length")
+  }
+  seen := make([]bool, n)
+  for _, k := range pi {
+    if k < 0 || k >= n || seen[k] {
+      return fmt.Errorf("invalid permutation")
+    }
+    seen[k] = true
+  }
+  return nil
+}
+
+// Apply the permutation pi in place, i.e. afterwards position i holds the
+// element that was at position pi[i]. Every cycle of the permutation is
+// resolved by a sequence of swaps.
+func applyPermutation(pi []int, swap func(i, j int)) {
+  done := make([]bool, len(pi))
+  for i := 0; i < len(pi); i++ {
+    for j := i; !done[j]; j = pi[j] {
+      done[j] = true
+      if pi[j] != i {
+        swap(j, pi[j])
+      }
+    }
+  }
+}
